@@ -7,9 +7,9 @@ Import ListNotations.
 
 Lemma leaf_place_step n r c l : child_at n r c -> leaf_place c l -> leaf_place n (r :: l).
 Proof.
-  intros Hc [[i [v R]]|[k [l0 [i [els [m [-> [R [Hin Hk]]]]]]]]].
+  intros Hc [[i [v R]]|[m [l0 [i [els [-> [R Hin]]]]]]].
   - left. exists i, v. econstructor; eauto.
-  - right. exists k, (r :: l0), i, els, m. split; [reflexivity|]. split; [econstructor; eauto|auto].
+  - right. exists m, (r :: l0), i, els. split; [reflexivity|]. split; [econstructor; eauto|auto].
 Qed.
 
 Theorem leaves_sound n : forall lc l,
@@ -29,8 +29,8 @@ Proof.
     eapply leaf_place_step; eauto. constructor; auto.
   - apply In_floop in Hin. destruct Hin as [j [m [Hn Hin]]]. destruct Hin as [<-|[]].
     exists [member_ref m]. split; [reflexivity|]. right.
-    exists (key_val m), [], i, els, m. split; [reflexivity|]. split; [constructor|].
-    split; auto. eapply nth_error_In; eauto.
+    exists m, [], i, els. split; [reflexivity|]. split; [constructor|].
+    eapply nth_error_In; eauto.
 Qed.
 
 Lemma leaves_lift n r c lc l :
@@ -43,7 +43,7 @@ Qed.
 
 Theorem leaves_complete n l' : leaf_place n l' -> forall lc, In (lc ++ l')%list (leaves n lc).
 Proof.
-  intros [[i [v R]]|[k [l0 [i [els [m [-> [R [Hin Hk]]]]]]]]].
+  intros [[i [v R]]|[m [l0 [i [els [-> [R Hin]]]]]]].
   - remember (NLeaf i v) as tgt eqn:Et. induction R as [n|n r c l m Hc R IH]; intros lc; subst.
     + simpl. left. symmetry. apply app_nil_r.
     + eapply leaves_lift; eauto.
